@@ -1,3 +1,97 @@
--- stub: replaced by the property author
+import SupervisorModel.Lemmas.SupLemmas
+/-
+  C02 — every child is tracked and reaped once; reported state and live child agree.
+
+  Per process (Model/Proc*.lean, guards regenerated from process.py) and for the daemon's reap
+  loop and `pidhistory` (Model/Sup.lean, guards regenerated from supervisord.py).  The daemon
+  model is checked pass by pass against the unmodified `runforever()` over a simulated kernel.
+-/
+set_option linter.unusedSimpArgs false
+set_option linter.unusedVariables false
 namespace Sv.Props.C02
+open Sv Sv.Proc Sv.Gen.Proc Sv.Sup Sv.Gen.Sup
+
+/-- **Reported state and held child agree, after every history.**  From the initial state, after any
+    sequence of operations (passes, reaps, start/stop/signal requests, group stops — any clock
+    readings, any environment answers, fork returning a non-zero pid): the process is STARTING,
+    RUNNING or STOPPING only while it holds a child (`pid ≠ 0`), holds none in STOPPED, BACKOFF,
+    EXITED and FATAL (UNKNOWN excepted), and `killing` is set exactly during a stop. -/
+theorem state_pid_agree (cfg : Cfg) (ops : List Op) (hw : ∀ op ∈ ops, wfOp op) :
+    Inv (run cfg { p := {} } ops).p :=
+  run_inv cfg ops { p := {} } hw inv_init
+
+/-- **A second child is never forked for a process that still has one** -/
+theorem no_fork_with_child (cfg : Cfg) (p : Proc) (now mood : Int) (res : SpawnRes) (kr : KillRes) (hp : p.pid ≠ 0) :
+    forks (transition cfg now mood res kr { p := p }).outs = [] :=
+  transition_no_fork_with_child cfg p now mood res kr hp
+
+/-- … nor by a start request: with a child the process is STARTING/RUNNING/STOPPING (or UNKNOWN), for
+    which `startProcess` answers a fault without calling spawn -/
+theorem start_request_no_fork_with_child (cfg : Cfg) (p : Proc) (now mood : Int) (res : SpawnRes) (hi : Inv p) (hp : p.pid ≠ 0) :
+    forks (rpcStart cfg now mood res { p := p }).outs = [] := by
+  have hst : p.state = .starting ∨ p.state = .running ∨ p.state = .stopping ∨ p.state = .unknown := by
+    cases hs : p.state <;> simp <;> (exfalso; apply hp; apply hi.dead; simp [hs])
+  have href : ∃ c, startRefusal p (res == .badCmd) = some c := by
+    rcases hst with hs | hs | hs | hs <;> simp [startRefusal, hs, runningStates] <;> (repeat' split) <;> simp
+  obtain ⟨c, hc⟩ := href
+  simp only [rpcStart, guard, Option.isSome_none, Bool.false_eq_true, if_false, hc, answer, emit]
+  split <;> simp [forks]
+
+/-- **A fork is recorded**: a successful spawn leaves the process STARTING with exactly the pid fork returned -/
+theorem fork_registers (cfg : Cfg) (p : Proc) (now pid : Int)
+    (hs : p.state = .stopped ∨ p.state = .exited ∨ p.state = .fatal ∨ p.state = .backoff) (hp : p.pid = 0) (hpid : pid ≠ 0) :
+    let r := spawn cfg now (.ok pid) { p := p }
+    r.p.pid = pid ∧ r.p.state = .starting ∧ forks r.outs = [.fork pid] ∧ r.err = none := by
+  rcases hs with hs | hs | hs | hs <;> simp [procdefs, hs, hp, hpid, forks]
+
+theorem finishCore_pid (cfg : Cfg) (e : Proc.Env) (busy : Bool) (p : Proc) (os : List Out) :
+    (finishCore cfg e busy { p := p, outs := os }).err = none → (finishCore cfg e busy { p := p, outs := os }).p.pid = 0 := by
+  cases hs : p.state <;> cases busy <;> cases hk : p.killing <;> cases ht : e.tooQuickly <;> cases hx : e.exitExpected <;>
+    simp [procdefs, hs, hk, ht, hx]
+
+/-- **A reaped child is released**: after `finish()` the process holds no child and is not reported
+    in a state that needs one — whatever the exit status, the clock and the state it was in
+    (including UNKNOWN, fix F9), and without raising. -/
+theorem reap_clears (cfg : Cfg) (p : Proc) (now es : Int) (busy : Bool) (hi : Inv p) (hp : p.pid ≠ 0) (hw : 0 ≤ cfg.startsecs) :
+    let r := finish cfg now es busy { p := p }
+    r.p.pid = 0 ∧ r.err = none ∧ ¬ (r.p.state = .starting ∨ r.p.state = .running ∨ r.p.state = .stopping) := by
+  have hok := finish_ok [] cfg p now es busy hi hp hw
+  have hinv := finish_inv cfg now es busy { p := p } hi
+  have hpid : (finish cfg now es busy { p := p }).p.pid = 0 := by
+    simp only [finish, guard, setP, Option.isSome_none, Bool.false_eq_true, if_false] at hok ⊢
+    exact finishCore_pid _ _ _ _ _ hok
+  refine ⟨hpid, hok, ?_⟩
+  intro hl
+  exact hinv.live hl hpid
+
+/-- **Unknown pids are harmless**: a pid `waitpid` returns that supervisord never forked changes no
+    process and no bookkeeping; it is only logged -/
+theorem foreign_pid_harmless (k : Int) (pid es : Int) (s : Sup) (hk : k ≠ 100) (hp : pid ≠ 0)
+    (hun : s.pidhist.lookup pid = none) (he : s.err = none) (hx : s.exited = false) :
+    (reapLoop k [(pid, es)] s).procs = s.procs ∧ (reapLoop k [(pid, es)] s).pidhist = s.pidhist ∧
+    (reapLoop k [(pid, es)] s).outs = s.outs ++ [.reapedUnknown pid] :=
+  reap_unknown_pid k pid es s hk hp hun he hx
+
+/-- **At most 100 per invocation** (the recursion guard), for any number of exited children -/
+theorem reap_bound (ws : List (Int × Int)) (s : Sup) :
+    reapLoop 0 ws s = reapLoop 0 (ws.take 100) s := by
+  simpa using Sv.Sup.reap_bound ws s 0 (by omega)
+
+/-- **An exit is attributed to the process recorded at fork time and to no other**: reaping pid
+    changes only the process `pidhistory` maps it to -/
+theorem reap_only_owner (pid es : Int) (name : Nat) (s : Sup) (hl : s.pidhist.lookup pid = some name)
+    (he : s.err = none) (hx : s.exited = false) (hp : pid ≠ 0) :
+    ∀ m, m ≠ name → findPE (reapLoop 0 [(pid, es)] s).procs m = findPE s.procs m := by
+  intro m hm
+  have h1 := onProc_others name (fun cfg => finish cfg s.env.now es false) s m hm
+  simp only [reapLoop, sguard, he, hx, reap_g0, reap_g1, hl]
+  simp [hp]
+  split
+  · exact h1
+  · exact h1
+
+-- non-vacuity: the burst case of the quantifier (130 exited children, none known)
+example : (reapLoop 0 ((List.range 130).map fun (i : Nat) => (((i : Int) + 1000), (0 : Int))) { procs := [] }).outs.length = 100 := by
+  decide +kernel
+
 end Sv.Props.C02
